@@ -165,7 +165,12 @@ def gen(kind: str, p: str) -> Dict[str, Any]:
 
 def _escape_docstring_source(src: str) -> str:
     """The docstring VALUE must hold the payload: write backslash-free control characters as escapes."""
-    return "".join(c if (c in "\n\t" or 32 <= ord(c) < 127) else "\\x%02x" % ord(c) for c in src)
+    def esc(c: str) -> str:
+        o = ord(c)
+        if c in "\n\t" or 32 <= o < 127:
+            return c
+        return "\\x%02x" % o if o < 256 else ("\\u%04x" % o if o < 65536 else "\\U%08x" % o)
+    return "".join(esc(c) for c in src)
 
 
 def _ds(text: str, indent: int) -> str:
